@@ -455,7 +455,8 @@ def program_equivalence(prog1, prog2, compare_params=True, atol=1e-6, rtol=0):
         wire_mapping = {}
         for i, n in enumerate(G.nodes()):
             # not a ``CXgate`` or a ``BSgate``, order of wires doesn't matter
-            wire_mapping[i] = 0
+            # (but which wires the operation acts on does)
+            wire_mapping[i] = sorted(j.ind for j in n.reg)
 
             if n.op.__class__.__name__ == "CXgate":
                 # if the ``CXgate`` parameter is not 0, order matters
@@ -477,7 +478,11 @@ def program_equivalence(prog1, prog2, compare_params=True, atol=1e-6, rtol=0):
             nx.set_node_attributes(circuit[-1], parameter_mapping, name="p")
 
         # add node attributes to store the operation name
-        name_mapping = {i: n.op.__class__.__name__ for i, n in enumerate(G.nodes())}
+        # a gate and its inverse are different operations
+        name_mapping = {
+            i: n.op.__class__.__name__ + (".H" if getattr(n.op, "dagger", False) else "")
+            for i, n in enumerate(G.nodes())
+        }
         nx.set_node_attributes(circuit[-1], name_mapping, name="name")
 
     def node_match(n1, n2):
